@@ -1355,6 +1355,18 @@ def _cleanup_and_removal_after_a_timeout():
 M.after_load = _cleanup_and_removal_after_a_timeout
 
 
+# ------------------------------------------------------------------------------ record classes that carry the timeout
+# The timeout (default, or last set) travels in tuple-backed records (ExecutionConfiguration,
+# ProcessExecutionSettings, instruction environments ...): each accessor must return the component that was built
+# from the constructor argument of its name.  (After the seeded change C19-s5: `timeout_in_seconds` returned
+# the memory buffer size, 8192 "seconds".)
+
+@M.check('record-accessors')
+def _record_accessors(ctx):
+    from contracts.common import record_accessor_obligations
+    record_accessor_obligations(ctx)
+
+
 # ------------------------------------------------------------------------------ completeness of the list of sites
 
 def _settings_references(tree):
